@@ -7,10 +7,10 @@
 (* of limbs, most significant first (TLC integers are 32 bit):             *)
 (*   traces   : 4 limbs, base 65536  (tr.Limbs of a uint64)                *)
 (*   ShardAlg : 2 limbs, base 16     (the scaled-down 8-bit space)         *)
-(* so the comparison / modulo operators that judge the real 64-bit values  *)
-(* are the ones exercised exhaustively by the model checker.               *)
+(* so the comparison operators that judge the real 64-bit values are the   *)
+(* ones exercised exhaustively by the model checker.                       *)
 (***************************************************************************)
-EXTENDS Integers, Sequences, FiniteSets
+EXTENDS Integers, Sequences, FiniteSets, TLC
 
 (* three-way comparison of two limb sequences of equal length: -1, 0, 1 *)
 RECURSIVE LimbCmp(_, _)
@@ -19,14 +19,6 @@ LimbCmp(a, b) ==
   ELSE IF Head(a) < Head(b) THEN -1
   ELSE IF Head(a) > Head(b) THEN 1
   ELSE LimbCmp(Tail(a), Tail(b))
-
-(* value of limb sequence `a` (base `base`) modulo n, by Horner's rule.    *)
-(* Intermediate values stay below n * base + base: fits int32 for          *)
-(* base = 65536 and n <= 32767.                                            *)
-LimbsMod(a, base, n) ==
-  LET RECURSIVE R(_, _)
-      R(i, acc) == IF i > Len(a) THEN acc ELSE R(i + 1, (acc * base + a[i]) % n)
-  IN R(1, 0)
 
 (* numeric value of a (short) limb sequence; only for the scaled-down model *)
 LimbsVal(a, base) ==
@@ -80,6 +72,6 @@ InsertObs(s, h, i) ==
 SeqRange(s) == {s[j] : j \in 1..Len(s)}
 
 (* extend / restrict a function *)
-Ext(f, k, v) == [x \in DOMAIN f \cup {k} |-> IF x = k THEN v ELSE f[x]]
+Ext(f, k, v) == (k :> v) @@ f          \* (TLC evaluates @@ natively; the left operand wins)
 Rem(f, k)    == [x \in DOMAIN f \ {k} |-> f[x]]
 =============================================================================
